@@ -83,6 +83,34 @@ func c08apply(base *c08base, w *World, model map[string]int, op c08op) (err erro
 	return err, w.VMeta.JournalSince(j)
 }
 
+// c08impl dumps what the label store really holds (label key -> bundle, as B1/B2 of its repository): it is part of the
+// state key, so an implementation state that differs from the model is a state of its own and gets the full battery.
+func c08impl(base *c08base, w *World) string {
+	var parts []string
+	for _, k := range w.VMeta.RawKeys() {
+		if !strings.HasPrefix(k, "labels/") {
+			continue
+		}
+		b, _ := w.VMeta.RawGet(k)
+		id := "?"
+		for _, line := range strings.Split(string(b), "\n") {
+			if strings.HasPrefix(line, "id:") {
+				id = strings.TrimSpace(strings.TrimPrefix(line, "id:"))
+			}
+		}
+		for r, ids := range base.ids {
+			for i, bid := range ids {
+				if bid == id {
+					id = fmt.Sprintf("%s.B%d", r, i+1)
+				}
+			}
+		}
+		parts = append(parts, k+"->"+id)
+	}
+	sort.Strings(parts)
+	return strings.Join(parts, ",")
+}
+
 func c08canon(model map[string]int) string {
 	var ks []string
 	for k, v := range model {
@@ -134,7 +162,7 @@ func c08observe(rep *lib.Report, base *c08base, w *World, model map[string]int, 
 func TestC08(t *testing.T) {
 	rep := lib.NewReport("C08", "model_checking")
 	defer rep.Finish(t)
-	rep.Rule = "BFS over all histories of set(r,l,b) with a fresh Label object / move(r,l,B2) with a Label object that fetched the current descriptor first / delete(r,l), r in {a,ab}, l in {x,x-y,v1.0.0}, b in {B1,B2}, de-duplicated on the label map, to the fixed point (3^6 states); each state rebuilt on a fresh clone of the real stores; after every step: get of every (r,l), ListLabels with prefixes {'',x,v} x page sizes 1..4, and the write journal (exactly one key written, under labels/<r>/<l>/; bundles and other labels untouched); name acceptance: every string of length <=2 over {a,7,-,_,.,/,space,é,#} + hostile names: if the API accepts the name, get must resolve it and listing must return it together with the other labels; label listings (page size 2, with and without prefix) under every single transient fault at each metadata call: an error or exactly the live labels; distinct = distinct label maps / names"
+	rep.Rule = "BFS over all histories of set(r,l,b) with a fresh Label object / move(r,l,B2) with a Label object that fetched the current descriptor first / delete(r,l), r in {a,ab}, l in {x,x-y,v1.0.0}, b in {B1,B2}, de-duplicated on (label map of the model, labels really in the store), to the fixed point (3^6 states); each state rebuilt on a fresh clone of the real stores; after every step: get of every (r,l), ListLabels with prefixes {'',x,v} x page sizes 1..4, and the write journal (exactly one key written, under labels/<r>/<l>/; bundles and other labels untouched); name acceptance: every string of length <=2 over {a,7,-,_,.,/,space,é,#} + hostile names: if the API accepts the name, get must resolve it and listing must return it together with the other labels; label listings (page size 2, with and without prefix) under every single transient fault at each metadata call: an error or exactly the live labels; distinct = distinct label maps / names"
 	base := c08mkbase()
 	var alphabet []c08op
 	for _, r := range c08repos {
@@ -182,11 +210,11 @@ func TestC08(t *testing.T) {
 	res := lib.BFS(lib.BFSConfig[c08op]{
 		Alphabet: func(h []c08op) []c08op { return alphabet },
 		Canon: func(h []c08op) string {
-			_, model, ok := build(h, false)
+			w, model, ok := build(h, false)
 			if !ok {
 				return ""
 			}
-			return "S:" + c08canon(model)
+			return "S:" + c08canon(model) + " || store: " + c08impl(base, w)
 		},
 		Visit: func(h []c08op) {
 			w, model, ok := build(h, true)
